@@ -53,11 +53,9 @@ def opSER (x : Item) (n : Nat) : String :=
 
 def opSERA (x : Item) (mode k : Nat) : String :=
   let sz := size x
-  if sz == 0 then "0 0 null reqs=0 reqsize=0 live=0"
-  else if !(mkOracle mode k 0 0 sz.toNat) then s!"0 0 null reqs=1 reqsize={sz} live=0"
-  else
-    let r := serInto x sz.toNat
-    s!"{r.1} {sz} {toHex (r.2.extract 0 r.1.toNat)} reqs=1 reqsize={sz} live=1"
+  match serializeAlloc (fun k' => mkOracle mode k 0 0 k') x with
+  | none => if sz == 0 then "0 0 null reqs=0 reqsize=0 live=0" else s!"0 0 null reqs=1 reqsize={sz} live=0"
+  | some r => s!"{r.1} {sz} {toHex (r.2.extract 0 r.1.toNat)} reqs=1 reqsize={sz} live=1"
 
 def opROUND (x : Item) (L : Nat) : String :=
   let sz := (size x).toNat
